@@ -261,6 +261,8 @@ type Solver struct {
 	timeout  time.Duration
 	cacheDir string
 	noCache  bool
+	retryFactor int             // > 1: a goal that timed out is tried once more with this many times the limit
+	noRetry     map[string]bool // obligation keys exempt from the second chance (recorded known findings)
 }
 
 var fileSeq int64
